@@ -98,7 +98,7 @@ def run_case(case, ctx):
 					nm = clean_name(stem, ext + ('.gz' if gz else ''), chan == 'list')
 					rel.append(nm if (i % 3 == 0 and nm not in rel) else os.path.join(f'sub{i}', 'deeper' if i % 2 else '', nm))
 					gzs.append((plan.get('gz_members', 1) if i % 2 == 0 else True) if gz else False)
-				paths = H.write_genomes(os.path.join(pd, 'base'), [W.query_contigs[q] for q in order], rel, gz=gzs)
+				paths = H.write_genomes(os.path.join(pd, 'base'), [W.query_contigs[q] for q in order], rel, gz=gzs, softmask=plan.get('softmask'))
 				labels = [H.expected_label(p) for p in rel]
 				if plan.get('symlinks'):
 					# each input is a symbolic link (as staged by workflow managers) to a file with an unrelated name
@@ -229,6 +229,7 @@ def gen_case(draw, tier):
 			'chunksize': draw(st.sampled_from([1000, None, 1, 2, 'n+1'])),
 			'out_mode': draw(st.sampled_from(['file', 'file', 'stale', 'file', 'stdout', 'file'])),
 			'list_cwd': draw(st.sampled_from([None, 'decoy', None, 'implicit'])),
+			'softmask': draw(st.sampled_from([None, 3, None, 17])),
 		})
 	return {'kind': 'plans', 'world': w, 'plans': plans}
 
